@@ -47,5 +47,25 @@ func vCheckArray(name string, a *Array, st vState, res *Array) {
 	zzverif.Reach(name)
 }
 
-
 func vEventOK(b []byte) bool { return vLine(b) }
+
+// Strings of 2..3 symbolic bytes straight through the string/bytes/key encoders (cheap: no
+// surrounding event), so that two-byte UTF-8 shapes are always inside the quick bound.
+func VH_C01_string_bytes() {
+	n := zzverif.Param("rawstrlen", 2)
+	s := zzverif.String(n)
+	var out []byte
+	switch zzverif.Choice(3) {
+	case 0:
+		out = enc.AppendString(nil, s)
+	case 1:
+		out = enc.AppendBytes(nil, []byte(s))
+	case 2:
+		k := enc.AppendKey([]byte{'{'}, s)
+		zzverif.Assert(k[len(k)-1] == ':', "key ends with a colon")
+		out = k[1 : len(k)-1]
+	}
+	zzverif.Observe("string", out)
+	zzverif.Assert(vJSONString(out, 0) == len(out), "string/bytes/key encoders emit one well-formed JSON string literal in valid UTF-8 without control bytes")
+	zzverif.Reach("C01/string-bytes")
+}
